@@ -209,8 +209,17 @@ func init() {
 				}
 				sb2 := *sb
 				rb := &sessRun{tw: pr.b.tw, err: pr.b.err}
+				implCanon := pr.b.canon
+				if pr.stalled {
+					// bytes were lost and the exchange ended by the (simulated) link timeout: the live receiver then
+					// finds the link dead when it tries to write its error line, while the model's input simply ends.
+					// Compare the model with the real Session REPLAYED on exactly the bytes it received (same code,
+					// same input, link lost after the input) so that both sides have the same end-of-link semantics.
+					rp := runSessionImpl(&sb2, pr.wireAB)
+					rb, implCanon = rp, rp.canon
+				}
 				sb2.hints = hintsFrom(rb)
-				cases = append(cases, Case{Line: sb2.line(pr.wireAB), Impl: pr.b.canon, Desc: fmt.Sprintf("receiver on stream altered in transit (%s %v)", kind, trunc(fmt.Sprint(edits), 80)), Class: kind, Nontrivial: nontriv})
+				cases = append(cases, Case{Line: sb2.line(pr.wireAB), Impl: implCanon, Desc: fmt.Sprintf("receiver on stream altered in transit (%s %v)", kind, trunc(fmt.Sprint(edits), 80)), Class: kind, Nontrivial: nontriv})
 			}
 			for _, sp := range spans {
 				lo, hi := sp[0], sp[1]
